@@ -47,6 +47,11 @@ func (e *Engine) frameUnits(spec string) []frameUnit {
 					continue
 				}
 				fc := &FuncContract{Header: "func (*" + tn + ") " + n + " [synthesised read-only frame]", Name: n, RecvType: "*" + tn, Aspect: "readonly", HasMod: true, Loops: map[int]*LoopSpec{}, PkgPath: path}
+				// the input invariants (requires) of the method's own contract, when it has one, also apply here
+				if mc := e.contractFor(fn, "main"); mc != nil && !mc.Inline {
+					fc.Requires = mc.Requires
+					fc.Loops = mc.Loops
+				}
 				out = append(out, frameUnit{fn, fc})
 			}
 		}
